@@ -202,13 +202,9 @@ def MODEL_SKIP(case):
     return any(w in UNMODELLED for f in forms_of(case) for w in _WORD.findall(f))
 
 
-def model_view(model_line, profile):
-    # a model hang (fuel exhausted) is the model's way of saying the implementation does not return
-    return model_line.replace("NOFUEL", "TIMEOUT")
-
-
 def _bad(line):
-    return line == "PANIC" or line.startswith(("ABORT", "TIMEOUT")) or " PANIC" in line
+    # NOFUEL: the sliced evaluator gave up after its slice limit (a hang seen from inside)
+    return line == "PANIC" or line.startswith(("ABORT", "TIMEOUT")) or " PANIC" in line or " NOFUEL" in line
 
 
 def oracle(case, impl_line):
